@@ -126,6 +126,11 @@ class CallMixin:
         return v.clone({})
 
     def resolve_import(self, mod: ModuleInfo, m, attr, level):
+        if level and getattr(mod, "relpath", "").endswith(".py") and not getattr(mod, "is_spec", False):
+            # function-level `from .sibling import name`: resolve relative to the package of the importing module
+            pkg = mod.relpath[:-3].split("/")[:-1]
+            base = pkg[:len(pkg) - (level - 1)]
+            m = ".".join(base + ([m] if m else []))
         target = self.repo.module_by_dotted(m) if m else None
         if target is not None:
             v = self.module_name(target, attr)
